@@ -9,6 +9,14 @@ ROWS = {
    technique='property-based testing: model-based operation histories (Hypothesis) + bounded exhaustive sequence enumeration, lock-step in-memory/shelve backends',
    text='Generated and exhaustively enumerated Cache/Population histories under a frozen clock are compared step by step with a reference dict model and between the in-memory and file-backed cache; exploration, not proof.',
    note='Frozen clock via module-global rebinding; reference model is a transcription of the statement; exact-equality instants not generated.'),
+ 'C18': dict(level='exploration', design='3/C18',
+   technique='property-based testing: model-based IdentDB operation histories (Hypothesis) + bounded exhaustive sequences; generated codec round-trip/injectivity',
+   text='Generated and exhaustively enumerated IdentDB histories on dict and shelve stores are checked after every step against a reference map (identifier -> owner, withdrawn set); code/decode round trip and injectivity over arbitrary Unicode fields.',
+   note='Identifier texts come from the library RNG (outcomes do not depend on values); raising operations are not violations; one open known finding (user id equal to an issued identifier text) is excluded by matcher.'),
+ 'C14': dict(level='exploration', design='3/C14',
+   technique='property-based testing: generated messages/RelayStates/destinations, round trip through independent stdlib readers (urllib.parse, html.parser, ElementTree, zlib)',
+   text='Generated messages and RelayStates are packaged with Redirect, POST, SOAP/PAOS and artifact encoders and read back with independent parsers and with the library decoders; byte identity (Redirect/POST), element identity (SOAP), exact parameter/field sets.',
+   note='Destinations are URL-safe by construction; HTML values compared modulo CR/CRLF->LF; artifact endpoint index limited to 0..9.'),
 }
 NOT_YET = {}
 def main():
